@@ -155,28 +155,48 @@ Section Pipeline.
     reachable (o_keep o) (negb (valid orig)) (Nat.eqb (min_indent orig) 0).
 End Pipeline.
 
-(* ---- correspondence plumbing: texts, preserve sets = small nats; stages / guards = tables ---- *)
-Fixpoint assoc (k : kind) (l : list (kind * list nat)) : option (list nat) :=
+(* ---- correspondence plumbing: texts = small nats, preserve sets = bit masks; stages / guards = tables ---- *)
+Definition script_t : Type := list (kind * (bool * list (nat * nat))).
+
+Fixpoint assoc (k : kind) (l : script_t) : option (bool * list (nat * nat)) :=
   match l with
   | [] => None
   | (k', t) :: tl => if kind_eqb k k' then Some t else assoc k tl
   end.
+Fixpoint lookup (i : nat) (l : list (nat * nat)) (d : nat) : nat :=
+  match l with
+  | [] => d
+  | (a, b) :: tl => if Nat.eqb a i then b else lookup i tl d
+  end.
 
-(* a scripted stage: table indexed by  preserve-id * nu + text-id  (ctx-free calls use preserve-id 0) *)
-Definition script_stage (nu : nat) (script : list (kind * list nat)) (k : kind) (c : option (ctx nat nat)) (s : nat) : nat :=
+(* a scripted stage: sparse table (identity elsewhere); a stage that is handed `preserve` may depend on it:
+   index = preserve-mask * nu + text-id, otherwise index = text-id *)
+Definition script_stage (nu : nat) (script : script_t) (k : kind) (c : option (ctx nat nat)) (s : nat) : nat :=
   match assoc k script with
   | None => s
-  | Some t => nth ((match c with Some c => c_preserve nat nat c | None => 0 end) * nu + s) t s
+  | Some (uses_preserve, t) =>
+      let p := match c with Some c => if uses_preserve then c_preserve nat nat c else 0 | None => 0 end in
+      lookup (p * nu + s) t s
+  end.
+
+(* observed traces are written with one token per full pass of _multi_run_fixes (KMulti 0 .. KMulti (n-1) in order) *)
+Inductive tok : Type := TK (k : kind) | TPass.
+Fixpoint expand (n : nat) (l : list tok) : list kind :=
+  match l with
+  | [] => []
+  | TK k :: tl => k :: expand n tl
+  | TPass :: tl => multi_kinds n ++ expand n tl
   end.
 
 Record pcase : Type := mkPCase {
   pc_nu : nat; pc_nmulti : nat; pc_maxpasses : nat;
   pc_safe : bool; pc_keep : bool; pc_p0 : nat; pc_maxlen : nat; pc_input : nat;
-  pc_script : list (kind * list nat);
-  pc_skip : list bool; pc_blank : list bool; pc_valid : list bool; pc_level : list nat;
-  pc_safetab : list nat;                       (* safe_preserve p s = nth (p * nu + s) *)
-  pc_result : nat; pc_trace : list kind;       (* observed on the real format_code *)
-  pc_ctx : list nat }.                         (* observed [preserve-id; indent; maxlen; orig] or [] on early return *)
+  pc_script : script_t;
+  pc_skip : list nat; pc_blank : list nat; pc_invalid : list nat;   (* the text ids on which the guard is true / false *)
+  pc_level : list (nat * nat);                 (* indentation_level, sparse, default 0 *)
+  pc_surface : list (nat * nat);               (* module surface of a text as a bit mask, sparse, default 0 *)
+  pc_result : nat; pc_trace : list tok;        (* observed on the real format_code (full passes abbreviated) *)
+  pc_ctx : list nat }.                         (* observed [preserve mask; indent; maxlen; orig] or [] on early return *)
 
 Fixpoint trace_eqb (a b : list kind) : bool :=
   match a, b with
@@ -192,17 +212,18 @@ Fixpoint nats_eqb (a b : list nat) : bool :=
   end.
 
 Definition pcase_model (c : pcase) : nat * list kind * list nat :=
-  let tb (l : list bool) (s : nat) := nth s l false in
+  let inl (l : list nat) (s : nat) := existsb (Nat.eqb s) l in
+  let valid := fun s => negb (inl (pc_invalid c) s) in
+  let level := fun s => lookup s (pc_level c) 0 in
   let stage := script_stage (pc_nu c) (pc_script c) in
-  let sp := fun p s => nth (p * pc_nu c + s) (pc_safetab c) p in
+  let sp := fun p s => Nat.lor p (lookup s (pc_surface c) 0) in
   let o := mkOpts nat (pc_safe c) (pc_keep c) (pc_p0 c) (pc_maxlen c) in
-  let r := format_code_traced nat nat Nat.eqb stage (tb (pc_skip c)) (tb (pc_blank c)) (tb (pc_valid c))
-             (fun s => nth s (pc_level c) 0) sp (pc_nmulti c) (pc_maxpasses c) o (pc_input c) in
-  let cx := match exit_of nat nat stage (tb (pc_skip c)) (tb (pc_blank c)) (tb (pc_valid c)) (pc_input c) with
+  let r := format_code_traced nat nat Nat.eqb stage (inl (pc_skip c)) (inl (pc_blank c)) valid level sp
+             (pc_nmulti c) (pc_maxpasses c) o (pc_input c) in
+  let cx := match exit_of nat nat stage (inl (pc_skip c)) (inl (pc_blank c)) valid (pc_input c) with
             | NoExit =>
                 let st := prepass nat nat stage (pc_input c) in
-                let x := the_ctx nat nat (tb (pc_valid c)) (fun s => nth s (pc_level c) 0) sp o (fst st)
-                           (fst (dedented nat nat stage (tb (pc_valid c)) st)) in
+                let x := the_ctx nat nat valid level sp o (fst st) (fst (dedented nat nat stage valid st)) in
                 [c_preserve _ _ x; c_indent _ _ x; c_maxlen _ _ x; c_orig _ _ x]
             | _ => []
             end in
@@ -210,4 +231,4 @@ Definition pcase_model (c : pcase) : nat * list kind * list nat :=
 
 Definition pcase_ok (c : pcase) : bool :=
   let '(r, t, cx) := pcase_model c in
-  Nat.eqb r (pc_result c) && trace_eqb t (pc_trace c) && nats_eqb cx (pc_ctx c).
+  Nat.eqb r (pc_result c) && trace_eqb t (expand (pc_nmulti c) (pc_trace c)) && nats_eqb cx (pc_ctx c).
